@@ -196,6 +196,11 @@ Enabled(h, e) ==
        [] OTHER -> FALSE
   /\ e.op = "drop" => Cardinality(LiveSet(h)) >= 2
 
+SubsetRows(ob, by, vs) == SelRows(ob, Matching(RDesc(ob, by), vs))
+SubsetPats(ob, by, vs) ==
+  LET sel == Matching(PDesc(ob, by), vs) IN
+  [ob EXCEPT !.pats = Pick(ob.pats, sel), !.pidx = Pick(ob.pidx, sel),
+             !.vec = [r \in 1..Len(ob.rows) |-> MaskVec(ob.vec[r], Len(ob.pats), Range(sel))]]
 SubsampleRows(ob, by, vals) == SelRows(ob, MatchSeq(RDesc(ob, by), vals))
 SubsamplePats(ob, by, vals) ==
   LET sel == SortAsc(MatchSeq(PDesc(ob, by), vals)) IN
@@ -208,17 +213,14 @@ BootIdx(col, draw) == Pick(Groups(col), draw)
 Result(h, e) ==
   LET ob == h[e.o]  nr == Len(ob.rows)  np == Len(ob.pats) IN
   CASE e.op = "getitem" -> SelRows(ob, e.vals)
-    [] e.op = "subset" -> SelRows(ob, Matching(RDesc(ob, e.by), Range(e.vals)))
+    [] e.op = "subset" -> SubsetRows(ob, e.by, Range(e.vals))
     [] e.op = "subsample" -> SubsampleRows(ob, e.by, e.vals)
     [] e.op = "boot_rdm" -> SubsampleRows(ob, e.by, BootIdx(RDesc(ob, e.by), e.vals))
     [] e.op = "boot_pattern" -> SubsamplePats(ob, e.by, BootIdx(PDesc(ob, e.by), e.vals))
     [] e.op = "boot_both" ->
          SubsamplePats(SubsampleRows(ob, e.by, BootIdx(RDesc(ob, e.by), e.vals)),
                        e.by2, BootIdx(PDesc(ob, e.by2), e.vals2))
-    [] e.op = "subset_pattern" ->
-         LET sel == Matching(PDesc(ob, e.by), Range(e.vals)) IN
-         [ob EXCEPT !.pats = Pick(ob.pats, sel), !.pidx = Pick(ob.pidx, sel),
-                    !.vec = [r \in 1..nr |-> MaskVec(ob.vec[r], np, Range(sel))]]
+    [] e.op = "subset_pattern" -> SubsetPats(ob, e.by, Range(e.vals))
     [] e.op = "subsample_pattern" -> SubsamplePats(ob, e.by, e.vals)
     [] e.op = "reorder" -> PermPats(ob, e.vals)
     [] e.op = "sort_alpha" ->
